@@ -13,6 +13,8 @@ same verdict for both spellings (benign-edit robustness; see DESIGN 10.3d):
                                                         terminating branch first, test negated if needed; elif chains are left alone)
   0 < x ;  "general" == name   ->  x > 0 ;  name == "general"   (single ordering / equality test whose left operand only is constant-like)
   else: (if t: raise) ; B      ->  elif not t: B  else: raise   (a guard clause that opens the else block of an elif arm is the last arm of the chain)
+  d[k] if k in d else z        ->  d.get(k, z)          (d a name or attribute chain, k without calls)
+  dict.fromkeys(xs, <const>)   ->  {k: <const> for k in xs}
   dict() / list() / tuple()    ->  {} / [] / ()         (no arguments; only when the builtin name is not rebound in the module)
 
 Line numbers of the rewritten nodes are those of the original construct, so reports still point at the source.
@@ -83,6 +85,12 @@ class _Canon(ast.NodeTransformer):
         if isinstance(t, ast.Compare) and len(t.ops) == 1 and isinstance(t.ops[0], (ast.NotEq, ast.IsNot, ast.NotIn)) and (self.negate_cmp or not isinstance(t.ops[0], ast.NotEq)):
             pos = ast.copy_location(ast.Compare(left=t.left, ops=[_NEG[type(t.ops[0])]()], comparators=t.comparators), t)
             node = ast.copy_location(ast.IfExp(test=pos, body=node.orelse, orelse=node.body), node)
+        # d[k] if k in d else z  ->  d.get(k, z)   (d a name / attribute chain, k without calls: evaluating them twice is evaluating them once)
+        t = node.test
+        if isinstance(t, ast.Compare) and len(t.ops) == 1 and isinstance(t.ops[0], ast.In) and isinstance(node.body, ast.Subscript) and _simple(t.comparators[0]) and not any(isinstance(x, ast.Call) for x in ast.walk(t.left)):
+            if ast.dump(node.body.value) == ast.dump(t.comparators[0]) and ast.dump(node.body.slice) == ast.dump(t.left):
+                get = ast.Attribute(value=t.comparators[0], attr="get", ctx=ast.Load())
+                return ast.fix_missing_locations(ast.copy_location(ast.Call(func=ast.copy_location(get, node), args=[t.left, node.orelse], keywords=[]), node))
         return node
 
     def _negatable(self, v: ast.expr) -> bool:
@@ -127,6 +135,11 @@ class _Canon(ast.NodeTransformer):
         self.generic_visit(node)
         if isinstance(node.func, ast.Name) and node.func.id in _EMPTY and not node.args and not node.keywords and node.func.id not in self.rebound:
             return ast.copy_location(_EMPTY[node.func.id](), node)
+        # dict.fromkeys(xs, <constant>)  ->  {k: <constant> for k in xs}
+        if isinstance(node.func, ast.Attribute) and node.func.attr == "fromkeys" and isinstance(node.func.value, ast.Name) and node.func.value.id == "dict" and "dict" not in self.rebound and len(node.args) == 2 and not node.keywords and isinstance(node.args[1], ast.Constant):
+            k = ast.Name(id="_k", ctx=ast.Store())
+            comp = ast.DictComp(key=ast.Name(id="_k", ctx=ast.Load()), value=node.args[1], generators=[ast.comprehension(target=k, iter=node.args[0], ifs=[], is_async=0)])
+            return ast.fix_missing_locations(ast.copy_location(comp, node))
         return node
 
 
